@@ -11,7 +11,7 @@ func init() {
 		ID: "C08",
 		Decides: "(R08.1) every site in isaacstates that signs a ballot sign fact with the local key is reached only through the not-found edge of a ballot-pool lookup for the same stage and suffrage-confirm flag, whose found edge hands out the stored ballot (consensus handlers directly; the mimic path through mimicBallotFunc -> mimicBallot -> signMimicBallot -> mimicBallot); " +
 			"(R08.2) the broadcaster stores a local ballot before broadcasting, consults the pool's first-writer-wins answer, and on `already stored` broadcasts the ballot loaded from the pool for that same stage point; what is broadcast is exactly what set() returned; " +
-			"(R08.4) ballot sign facts are signed with the local key only at the tabled sites.",
+			"(R08.4) ballot sign facts are signed with the local key only at the tabled sites; (R08.5) the ballot pool's cleanup depth is a positive constant, so the stored local ballot of the current height — what every lookup-before-sign relies on — is not purged.",
 		NotDecided: "atomicity of the pool's own exists-then-put (C24); that the pool lookup key and the ballot's stage point coincide for all inputs (C24 R24.2); ballots signed by launch/dev commands outside isaacstates.",
 		Run:        runC08,
 	})
@@ -105,6 +105,8 @@ func runC08(c *Ctx) {
 		c.ArgIs(fn, "mimic signs with the node's own identity", calls, 1, 1, "st.local")
 		c.ArgIs(fn, "mimic copies the incoming ballot's fact", calls, 1, 2, "bl.SignFact().Fact()")
 	}
+	// R08.5: the pool does not purge the current height's local ballot (positive clean depth)
+	poolCleanDepthRules(c, "R08.5")
 	// R08.2 ----------------------------------------------------------------------------------------
 	c.Rule("R08.2", "MustPass")
 	if fn := c.Need("isaac/states.(*DefaultBallotBroadcaster).Broadcast"); fn != nil {
